@@ -4,6 +4,7 @@ import (
 	"bytes"
 	"errors"
 	"fmt"
+	"hash/crc32"
 	"io"
 	"sort"
 
@@ -181,8 +182,8 @@ type LexOpts struct {
 	SkipMagic, Validate, EmitInvalid, AttCRC, Attachments bool
 	// CustomCodecs: the caller supplies its own zstd and lz4 decompressors (LexerOptions.Decompressors), lenient ones that
 	// do not verify the codecs' own checksums, so that only go/mcap's validation stands between damage and the caller
-	CustomCodecs bool
-	MaxRecord, MaxChunk                                   int
+	CustomCodecs        bool
+	MaxRecord, MaxChunk int
 }
 
 // ErrClass classifies how a read ended: eof | error | panic.
@@ -313,12 +314,31 @@ func LexRetain(b []byte, skipMagic, validate, small bool) (res RetainResult) {
 			res.End = "panic"
 		}
 	}()
-	lexer, err := mcap.NewLexer(bytes.NewReader(b), &mcap.LexerOptions{SkipMagic: skipMagic, ValidateChunkCRCs: validate, Decompressors: Decompressors()})
+	// the attachment readers handed to the callback are values returned to the caller too: a consumer may keep them (to list
+	// the attachments after the read); what they say must not change when later attachments are lexed
+	type keptAtt struct {
+		ar   *mcap.AttachmentReader
+		snap mcap.AttachmentReader
+	}
+	var atts []keptAtt
+	lexer, err := mcap.NewLexer(bytes.NewReader(b), &mcap.LexerOptions{SkipMagic: skipMagic, ValidateChunkCRCs: validate, Decompressors: Decompressors(),
+		AttachmentCallback: func(ar *mcap.AttachmentReader) error {
+			atts = append(atts, keptAtt{ar, mcap.AttachmentReader{LogTime: ar.LogTime, CreateTime: ar.CreateTime, Name: ar.Name, MediaType: ar.MediaType, DataSize: ar.DataSize}})
+			return nil
+		}})
 	if err != nil {
 		res.End = "error"
 		return
 	}
 	defer lexer.Close()
+	defer func() {
+		for _, k := range atts {
+			res.N++
+			if k.ar.LogTime != k.snap.LogTime || k.ar.CreateTime != k.snap.CreateTime || k.ar.Name != k.snap.Name || k.ar.MediaType != k.snap.MediaType || k.ar.DataSize != k.snap.DataSize {
+				res.Changed++
+			}
+		}
+	}()
 	type kept struct{ rec, snap []byte }
 	var all []kept
 	for {
@@ -339,6 +359,109 @@ func LexRetain(b []byte, skipMagic, validate, small bool) (res RetainResult) {
 			res.Changed++
 		}
 	}
+	return
+}
+
+// LexShared lexes one file with several lexers that are all built from ONE LexerOptions value (and so from one Decompressors
+// map, which names only the custom format): two one after the other, the first closed before the second starts, then two
+// taking turns.  Each must return what a lexer with options of its own returns.  N counts the lexers, Changed those whose
+// token stream differs.
+func LexShared(b []byte, skipMagic, validate bool) (res RetainResult) {
+	defer func() {
+		if p := recover(); p != nil {
+			res.End = "panic"
+		}
+	}()
+	type tk struct {
+		t mcap.TokenType
+		h uint32
+	}
+	step := func(l *mcap.Lexer) (tk, error) {
+		t, rec, err := l.Next(nil)
+		if err != nil {
+			return tk{}, err
+		}
+		return tk{t, crc32.ChecksumIEEE(rec)}, nil
+	}
+	all := func(l *mcap.Lexer) ([]tk, string) {
+		var out []tk
+		for {
+			k, err := step(l)
+			if err != nil {
+				return out, ErrClass(err)
+			}
+			out = append(out, k)
+		}
+	}
+	same := func(a, b []tk) bool {
+		if len(a) != len(b) {
+			return false
+		}
+		for i := range a {
+			if a[i] != b[i] {
+				return false
+			}
+		}
+		return true
+	}
+	own, err := mcap.NewLexer(bytes.NewReader(b), &mcap.LexerOptions{SkipMagic: skipMagic, ValidateChunkCRCs: validate})
+	if err != nil {
+		res.End = "error"
+		return
+	}
+	ref, refEnd := all(own)
+	own.Close()
+	res.End = refEnd
+	// (a decompressor object in the map is the caller's and must not serve two lexers at once: the shared map names a format
+	// the file does not use)
+	shared := &mcap.LexerOptions{SkipMagic: skipMagic, ValidateChunkCRCs: validate,
+		Decompressors: map[mcap.CompressionFormat]mcap.ResettableReader{"verif-unused": &xorReader{}}}
+	judge := func(got []tk, end string) {
+		res.N++
+		if !same(got, ref) || end != refEnd {
+			res.Changed++
+		}
+	}
+	for i := 0; i < 2; i++ {
+		l, err := mcap.NewLexer(bytes.NewReader(b), shared)
+		if err != nil {
+			res.N++
+			res.Changed++
+			continue
+		}
+		got, end := all(l)
+		l.Close()
+		judge(got, end)
+	}
+	l1, err1 := mcap.NewLexer(bytes.NewReader(b), shared)
+	l2, err2 := mcap.NewLexer(bytes.NewReader(b), shared)
+	if err1 != nil || err2 != nil {
+		res.N += 2
+		res.Changed += 2
+		return
+	}
+	var g1, g2 []tk
+	e1, e2 := "", ""
+	for e1 == "" || e2 == "" {
+		if e1 == "" {
+			if k, err := step(l1); err != nil {
+				e1 = ErrClass(err)
+			} else {
+				g1 = append(g1, k)
+			}
+		}
+		if e2 == "" {
+			if k, err := step(l2); err != nil {
+				e2 = ErrClass(err)
+			} else {
+				g2 = append(g2, k)
+			}
+		}
+	}
+	l1.Close()
+	l2.Close()
+	judge(g1, e1)
+	judge(g2, e2)
 	return
 }
 
@@ -384,7 +507,7 @@ func ReadOpts(o IterOpts, mds *[]any) []mcap.ReadOpt {
 	}
 	var so, eo mcap.ReadOpt
 	legacy := o.Form == "legacy" || o.Form == "legacy-rev"
-	legacyS, legacyE := legacy || o.Form == "mixed-a", legacy || o.Form == "mixed-b"      // mixed: one bound through each API
+	legacyS, legacyE := legacy || o.Form == "mixed-a", legacy || o.Form == "mixed-b" // mixed: one bound through each API
 	if o.Start != nil {
 		if legacyS {
 			so = mcap.After(int64(*o.Start))
